@@ -1,4 +1,5 @@
 import Mathlib.Analysis.Real.Sqrt
+import Mathlib.Analysis.Complex.Exponential
 import DirectVerif.Model.Sens
 /-!
 # Helper lemmas for C09: sums of squares over a coil fibre, over ℝ
@@ -112,5 +113,106 @@ theorem sumsq_zero_map (v : List (ℝ × ℝ)) :
   induction v with
   | nil => simp
   | cons c v ih => simp only [List.map_cons, List.sum_cons, ih]; simp [sq]
+
+
+/-! ### phase 3: weights, the Gaussian window over ℝ -/
+
+/-- the real instance of the window operations: integer casts and `x ↦ exp (-x)` -/
+noncomputable def realWin : WinNum ℝ := { ofInt := fun n => (n : ℝ), expNeg := fun x => Real.exp (-x) }
+
+section generic2
+variable {α : Type}
+
+/-- two different entrywise operations in a row -/
+theorem divMapWith_divMapWith' (dv dv' : α → α → α) (S : SMap α) (n n' : Nat → α) :
+    divMapWith dv' (divMapWith dv S n) n' =
+      S.map fun coil => coil.mapIdx fun p c =>
+        (dv' (dv c.1 (n p)) (n' p), dv' (dv c.2 (n p)) (n' p)) := by
+  unfold divMapWith
+  rw [List.map_map]
+  apply List.map_congr_left
+  intro coil _
+  apply List.ext_getElem?
+  intro p
+  simp only [Function.comp, List.getElem?_mapIdx]
+  cases coil[p]? <;> rfl
+
+theorem fibre_weightPixels [Zero α] [Add α] [Mul α] [DecidableEq α] (w : Nat → α) (S : SMap α) (p : Nat) :
+    fibre (weightPixels w S) p = (fibre S p).map (fun c => (c.1 * w p, c.2 * w p)) :=
+  fibre_divMapWith _ S w p
+
+/-- an entrywise operation with a per-pixel second argument, as an explicit `map`/`mapIdx` -/
+theorem divMapWith_eq_map (dv : α → α → α) (S : SMap α) (n : Nat → α) :
+    divMapWith dv S n = S.map fun coil => coil.mapIdx fun p c => (dv c.1 (n p), dv c.2 (n p)) := rfl
+
+end generic2
+
+theorem sumsq_mul (v : List (ℝ × ℝ)) (w : ℝ) :
+    ((v.map fun c => (c.1 * w, c.2 * w)).map sq).sum = w * w * (v.map sq).sum := by
+  induction v with
+  | nil => simp
+  | cons c v ih =>
+    simp only [List.map_cons, List.sum_cons, ih]
+    unfold sq
+    ring
+
+theorem sumSqAt_weightPixels (w : Nat → ℝ) (S : SMap ℝ) (p : Nat) :
+    sumSqAt (weightPixels w S) p = w p * w p * sumSqAt S p := by
+  unfold sumSqAt
+  rw [fibre_weightPixels, sumsq_mul]
+
+theorem normAt_weightPixels (w : Nat → ℝ) (S : SMap ℝ) (p : Nat) (hw : 0 ≤ w p) :
+    normAt realNum (weightPixels w S) p = w p * normAt realNum S p := by
+  unfold normAt
+  rw [sumSqAt_weightPixels, realNum_sqrt, realNum_sqrt,
+    Real.sqrt_mul (mul_self_nonneg (w p)), Real.sqrt_mul_self hw]
+
+/-- `safe_divide (x·w) (w·n) = safe_divide x n` for a positive weight -/
+theorem safeDivide_real_scale (x n w : ℝ) (hw : 0 < w) :
+    safeDivide realNum (x * w) (w * n) = safeDivide realNum x n := by
+  by_cases hn : n = 0
+  · rw [safeDivide_real_zero _ _ hn, safeDivide_real_zero _ _ (by rw [hn, mul_zero])]
+  · have hwn : w * n ≠ 0 := mul_ne_zero (ne_of_gt hw) hn
+    rw [safeDivide_real_ne _ _ hn, safeDivide_real_ne _ _ hwn]
+    field_simp
+
+/-! ### magnitudes: the documented float32 range -/
+
+/-- upper / lower end of the documented range of magnitudes, `2^60` and `2^-60` -/
+noncomputable def rangeHi : ℝ := 2 ^ 60
+noncomputable def rangeLo : ℝ := 1 / 2 ^ 60
+
+theorem mul_self_le_of_abs_le (x b : ℝ) (h : |x| ≤ b) : x * x ≤ b * b := by
+  have h0 : 0 ≤ |x| := abs_nonneg x
+  calc x * x = |x| * |x| := (abs_mul_abs_self x).symm
+    _ ≤ b * b := mul_le_mul h h h0 (le_trans h0 h)
+
+theorem mul_self_ge_of_abs_ge (x b : ℝ) (hb : 0 ≤ b) (h : b ≤ |x|) : b * b ≤ x * x := by
+  calc b * b ≤ |x| * |x| := mul_le_mul h h hb (le_trans hb h)
+    _ = x * x := abs_mul_abs_self x
+
+theorem sumsq_le_length (v : List (ℝ × ℝ)) (b : ℝ) (h : ∀ c ∈ v, |c.1| ≤ b ∧ |c.2| ≤ b) :
+    (v.map sq).sum ≤ v.length * (2 * (b * b)) := by
+  induction v with
+  | nil => simp
+  | cons c v ih =>
+    have hc := h c (by simp)
+    have ih' := ih fun d hd => h d (by simp [hd])
+    simp only [List.map_cons, List.sum_cons, List.length_cons, Nat.cast_add, Nat.cast_one]
+    have h1 := mul_self_le_of_abs_le c.1 b hc.1
+    have h2 := mul_self_le_of_abs_le c.2 b hc.2
+    have hs : sq c ≤ 2 * (b * b) := by unfold sq; linarith
+    have he : ((v.length : ℝ) + 1) * (2 * (b * b)) = v.length * (2 * (b * b)) + 2 * (b * b) := by ring
+    rw [he]
+    linarith
+
+theorem sq_le_sumsq (v : List (ℝ × ℝ)) (c : ℝ × ℝ) (hc : c ∈ v) : sq c ≤ (v.map sq).sum := by
+  induction v with
+  | nil => simp at hc
+  | cons d v ih =>
+    simp only [List.map_cons, List.sum_cons]
+    rcases List.mem_cons.mp hc with rfl | h
+    · linarith [sumsq_nonneg v]
+    · linarith [ih h, sq_nonneg_cx d]
 
 end DirectVerif.Sens
